@@ -17,10 +17,14 @@ class Num (α : Type) extends Add α, Sub α, Mul α, Div α, Neg α where
   pi : α
   mu0 : α
   lt : α → α → Bool
+  /-- `a <= b` (false when either is NaN, like numpy's comparison) -/
+  le : α → α → Bool
   eq0 : α → Bool
   log : α → α
   /-- `atan2 y x` -/
   atan2 : α → α → α
+  sin : α → α
+  cos : α → α
 
 variable {α : Type} [Num α]
 open Num
@@ -166,6 +170,170 @@ def cuboidB (dim pol obs : V3 α) : V3 α :=
   let b := dim.y / n 2
   let c := dim.z / n 2
   cuboidAssemble (cuboidFlip obs) pol (cuboidFF (r.x - a) (r.x + a) (r.y - b) (r.y + b) (r.z - c) (r.z + c))
+
+
+/-! ### Triangle (charged sheet), Tetrahedron -/
+
+/-- `solid_angle(R, r)` of field_BH_triangle.py for one triangle -/
+def solidAngle (R0 R1 R2 : V3 α) (r0 r1 r2 : α) : α :=
+  let N := V3.dot R2 (V3.cross R1 R0)
+  let D := r0 * r1 * r2 + V3.dot R2 R1 * r0 + V3.dot R2 R0 * r1 + V3.dot R1 R0 * r2
+  let res := n 2 * atan2 N D
+  if lt (n 62831853 / n 10000000) (abs res) then n 0 else res
+
+/-- the edge integral `I` of `triangle_Bfield` for one edge (`R` = start vertex − observer,
+`L` = edge vector), including the switch to the edge-extension formula when the observer is
+closer than `1e-12·l` (relative to the edge length) to the edge's extension -/
+def triEdgeI (R L : V3 α) : α :=
+  let r2 := V3.dot R R
+  let r := sqrt r2
+  let l2 := V3.dot L L
+  let l := sqrt l2
+  let b := V3.dot R L
+  let bl := b / l
+  let ind := abs (r + bl)
+  if lt (n 1 / n 1000000000000 * l) ind then
+    n 1 / l * log ((sqrt (l2 + n 2 * b + r2) + l + bl) / ind)
+  else
+    -(n 1 / l) * log (abs (l - r) / r)
+
+/-- `triangle_Bfield` for one row: field of a homogeneously charged triangle with surface charge
+`σ = n·J` (Guptasarma 1999) -/
+def triangleB (v0 v1 v2 pol obs : V3 α) : V3 α :=
+  let nn := V3.cross (v1 - v0) (v2 - v0)
+  let nv := vd nn (norm nn)
+  let sigma := V3.dot nv pol
+  let R0 := v0 - obs
+  let R1 := v1 - obs
+  let R2 := v2 - obs
+  let L0 := v1 - v0
+  let L1 := v2 - v1
+  let L2 := v0 - v2
+  let PQR := vs (triEdgeI R0 L0) L0 + vs (triEdgeI R1 L1) L1 + vs (triEdgeI R2 L2) L2
+  let sa := solidAngle R0 R1 R2 (norm R0) (norm R1) (norm R2)
+  vd (vd (vs sigma (vs sa nv - V3.cross nv PQR)) pi) (n 4)
+
+/-- `BHJM_triangle` -/
+def bhjmTriangle (f : Field) (v0 v1 v2 pol obs : V3 α) : V3 α :=
+  match f with
+  | .M | .J => zero3
+  | .B => triangleB v0 v1 v2 pol obs
+  | .H => vd (triangleB v0 v1 v2 pol obs) mu0
+
+/-- determinant of the matrix with columns `a b c` -/
+def det3 (a b c : V3 α) : α :=
+  a.x * (b.y * c.z - b.z * c.y) - b.x * (a.y * c.z - a.z * c.y) + c.x * (a.y * b.z - a.z * b.y)
+
+/-- `check_chirality`: exchange the last two vertices of a left-handed tetrahedron -/
+def tetraChirality (v0 v1 v2 v3 : V3 α) : V3 α × V3 α × V3 α × V3 α :=
+  if lt (det3 (v1 - v0) (v2 - v0) (v3 - v0)) (n 0) then (v0, v1, v3, v2) else (v0, v1, v2, v3)
+
+/-- `point_inside` (in_out="auto"): barycentric coordinates of `x` with respect to the edge
+vectors from `v0` (Cramer's rule for the inverse matrix), all in [0,1] with sum ≤ 1 -/
+def tetraInside (v0 v1 v2 v3 x : V3 α) : Bool :=
+  let a := v1 - v0
+  let b := v2 - v0
+  let c := v3 - v0
+  let d := x - v0
+  let dt := det3 a b c
+  let l1 := det3 d b c / dt
+  let l2 := det3 a d c / dt
+  let l3 := det3 a b d / dt
+  le (n 0) l1 && le (n 0) l2 && le (n 0) l3 && le l1 (n 1) && le l2 (n 1) && le l3 (n 1) &&
+    le (l1 + l2 + l3) (n 1)
+
+/-- `BHJM_magnet_tetrahedron` for one row: four outward-oriented triangle sheets (after the
+chirality fix) plus the polarization inside -/
+def bhjmTetra (f : Field) (v0 v1 v2 v3 pol x : V3 α) : V3 α :=
+  match f with
+  | .J => if tetraInside v0 v1 v2 v3 x then pol else zero3
+  | .M => vd (if tetraInside v0 v1 v2 v3 x then pol else zero3) mu0
+  | .H =>
+    let w := tetraChirality v0 v1 v2 v3
+    bhjmTriangle .H w.1 w.2.2.1 w.2.1 pol x + bhjmTriangle .H w.1 w.2.1 w.2.2.2 pol x +
+      bhjmTriangle .H w.2.1 w.2.2.1 w.2.2.2 pol x + bhjmTriangle .H w.1 w.2.2.2 w.2.2.1 pol x
+  | .B =>
+    let w := tetraChirality v0 v1 v2 v3
+    let s := bhjmTriangle .B w.1 w.2.2.1 w.2.1 pol x + bhjmTriangle .B w.1 w.2.1 w.2.2.2 pol x +
+      bhjmTriangle .B w.2.1 w.2.2.1 w.2.2.2 pol x + bhjmTriangle .B w.1 w.2.2.2 w.2.2.1 pol x
+    if tetraInside w.1 w.2.1 w.2.2.1 w.2.2.2 x then s + pol else s
+
+/-! ### Circle (current loop) and the Bulirsch `cel` iteration -/
+
+/-- `cel_iter0`: iterative part of Bulirsch's cel algorithm.  The Python `while` loop
+`while fabs(g - qc) >= qc*1e-8` becomes a recursion on `fuel`; `none` = fuel exhausted before the
+exit test was met (the driver uses 200; termination in exact arithmetic is Props/C15). -/
+def celIter : Nat → α → α → α → α → α → α → α → Option α
+  | 0, _, _, _, _, _, _, _ => none
+  | fuel + 1, qc, p, g, cc, ss, em, kk =>
+    if le (qc * (n 1 / n 100000000)) (abs (g - qc)) then
+      let qc' := n 2 * sqrt kk
+      let kk' := qc' * em
+      let cc' := cc + ss / p
+      let g' := kk' / p
+      let ss' := n 2 * (ss + cc * g')
+      let p' := p + g'
+      celIter fuel qc' p' em cc' ss' (em + qc') kk'
+    else
+      some (pi / n 2 * (ss + cc * em) / (em * (em + p)))
+
+/-- `current_circle_Hfield` for one row in cylinder coordinates (Hr, Hz); `none` if a cel
+iteration did not finish within `fuel` steps -/
+def circleHcyl (fuel : Nat) (r0 r z i0 : α) : Option (α × α) :=
+  let r := r / r0
+  let z := z / r0
+  let z2 := z * z
+  let x0 := z2 + (r + n 1) * (r + n 1)
+  let k2 := n 4 * r / x0
+  let q2 := (z2 + (r - n 1) * (r - n 1)) / x0
+  let k := sqrt k2
+  let q := sqrt q2
+  let p := n 1 + q
+  let pf := k / sqrt r / q2 / n 20 / r0 * (n 1 / n 1000000) * i0
+  let cc := k2 * k2
+  let ss := n 2 * cc * q / p
+  match celIter fuel q p (n 1) cc ss p q with
+  | none => none
+  | some c1 =>
+    let hr := pf * z / r * c1
+    let cc2 := k2 * (k2 - (q2 + n 1) / r)
+    let ss2 := n 2 * k2 * q * (k2 / p - p / r)
+    match celIter fuel q p (n 1) cc2 ss2 p q with
+    | none => none
+    | some c2 =>
+      let hz := -pf * c2
+      -- `* 795774.7154594767` (= 1e7/4/π as spelled in the source)
+      let f : α := n 7957747154594767 / n 10000000000
+      some (hr * f, hz * f)
+
+/-- `BHJM_circle` for one row: special cases (zero diameter, on the wire, on the axis), else the
+general formula rotated back from cylinder coordinates -/
+def bhjmCircle (fuel : Nat) (f : Field) (diameter cur : α) (x : V3 α) : Option (V3 α) :=
+  match f with
+  | .M | .J => some zero3
+  | _ =>
+    let r := sqrt (x.x * x.x + x.y * x.y)
+    let phi := atan2 x.y x.x
+    let z := x.z
+    let r0 := abs (diameter / n 2)
+    let tol : α := n 1 / n 1000000000000000
+    let mask1 := eq0 r0
+    let mask2 := lt (abs (r - r0)) (tol * r0) && lt (abs z) (tol * r0)
+    let mask3 := eq0 r
+    let h : Option (V3 α) :=
+      if mask3 then
+        if mask1 then some zero3
+        else
+          let w := z * z + r0 * r0
+          some ⟨n 0, n 0, r0 * r0 / (w * sqrt w) * cur * (n 1 / n 2)⟩
+      else if mask1 || mask2 then some zero3
+      else
+        match circleHcyl fuel r0 r z cur with
+        | none => none
+        | some (hr, hz) => some ⟨hr * cos phi, hr * sin phi, hz⟩
+    match f with
+    | .B => h.map (fun v => vs mu0 v)
+    | _ => h
 
 /-! ### mask dispatch of the magnet wrappers; `core` is the closed-form core function's value -/
 
